@@ -24,8 +24,21 @@ def selection(g, d):
     if r < 0.65:
         base = path_expr(rng.choice(seqs)) if seqs and rng.random() < 0.7 else ("self",)
         return ("pipe", ("index", base, None), ("select", (rng.choice(["lt", "gt", "eq", "ne"]), ("self",), lit(rng.choice([0, 1, 2, "a", "cat"])))))
-    if r < 0.85:
+    if r < 0.78:
         return ("pipe", ("recurse",), ("select", (rng.choice(["eq", "lt", "gt"]), ("self",), lit(rng.choice([0, 1, 2, 3, "a", "b"])))))
+    if r < 0.88:
+        # the predicate reads below the candidate (an index at or beyond the end, a missing key): looking is not touching
+        allseqs = [p for p in evalgen.doc_paths(d) if isinstance(evalgen._get(d, p), list)]
+        if allseqs and rng.random() < 0.7:
+            p = rng.choice(allseqs)
+            ln = len(evalgen._get(d, p))
+            step = ("index", ("self",), lit(ln + rng.choice([0, 0, 0, 1, -1])))
+            if rng.random() < 0.3 and ln >= 1:
+                return ("pipe", ("index", path_expr(p), lit(ln)), ("getkey", rng.choice(evalgen.KEYS)))
+        else:
+            step = ("getkey", rng.choice(evalgen.KEYS))
+        base = rng.choice([("recurse",), ("index", ("self",), None)])
+        return ("pipe", base, ("select", (rng.choice(["eq", "ne"]), step, lit(rng.choice([0, 1, 2, None, "a"])))))
     return ("union", path_expr(g.simple_path(allow_new=False)), path_expr(g.simple_path(allow_new=False)))
 
 
